@@ -367,8 +367,10 @@ func (confineSuite) Gen(r *Rng, i int, tier string) any {
 	switch k := r.Intn(100); {
 	case k < 11:
 		return confineGenLex(r)
-	case k < 51:
+	case k < 49:
 		return confineGenDirfs(r)
+	case k < 51:
+		return confineGenArchName(r)
 	case k < 57:
 		return confineGenPkgRec(r)
 	case k < 62:
@@ -837,6 +839,8 @@ func (confineSuite) Run(raw json.RawMessage) []Step {
 		return confineRunKeyring(c)
 	case "cmd":
 		return confineRunCmd(c)
+	case "archname":
+		return confineRunArchName(c)
 	case "pkgrec":
 		return confineRunPkgRec(c)
 	case "pkgcache":
